@@ -160,9 +160,17 @@ fn gen_case(r: &mut Rng, id: usize) -> Case {
         };
         let wsql = wh.iter().map(atom).collect::<Vec<_>>().join(" and ");
         let sel = |cs: &[usize]| cs.iter().map(|c| colname(*c)).collect::<Vec<_>>().join(", ");
+        // a third of the statements also rely on the key ORDER of the range scan
+        let ordered = r.chance(1, 3);
+        if ordered && !proj.contains(&key) {
+            proj.push(key);
+        }
+        let ob = if ordered { format!(" order by {}", colname(key)) } else { String::new() };
         queries.push(Query {
-            qid, kind: "main", sql: format!("select {} from t where {}", sel(&proj), wsql),
-            nkeys: 0, desc: vec![], keypos: vec![], limit: None, offset: None, wh: wh.clone(), whpos: vec![],
+            qid, kind: "main", sql: format!("select {} from t where {}{}", sel(&proj), wsql, ob),
+            nkeys: 0, desc: if ordered { vec![false] } else { vec![] },
+            keypos: if ordered { vec![proj.iter().position(|c| *c == key).unwrap() as i64] } else { vec![] },
+            limit: None, offset: None, wh: wh.clone(), whpos: vec![],
         });
         // unfiltered variant: P ++ the WHERE columns
         let mut ucols = proj.clone();
